@@ -1471,3 +1471,33 @@ func (f *Flow) RangeVarOf(n ast.Node) *ast.RangeStmt {
 	}
 	return f.rangeVars[id.Pos()]
 }
+
+
+// evalBoolUnder evaluates a boolean expression built from !, && and || in three-valued logic under a valuation of
+// its atoms.
+func evalBoolUnder(e ast.Expr, val func(atom ast.Expr) (bool, bool)) (bool, bool) {
+	e = ast.Unparen(e)
+	switch x := e.(type) {
+	case *ast.UnaryExpr:
+		if x.Op == token.NOT {
+			v, k := evalBoolUnder(x.X, val)
+			return !v, k
+		}
+	case *ast.BinaryExpr:
+		if x.Op == token.LAND || x.Op == token.LOR {
+			a, ka := evalBoolUnder(x.X, val)
+			b, kb := evalBoolUnder(x.Y, val)
+			if x.Op == token.LAND {
+				if (ka && !a) || (kb && !b) {
+					return false, true
+				}
+				return true, ka && kb
+			}
+			if (ka && a) || (kb && b) {
+				return true, true
+			}
+			return false, ka && kb
+		}
+	}
+	return val(e)
+}
